@@ -510,3 +510,139 @@ def expand_text(fi, e, depth=3):
             return node
 
     return norm(Sub(depth).visit(copy.deepcopy(e)))
+
+
+class InlinedFunction:
+    """A function as seen with its same-module statement-level helper calls inlined (see inline_helpers)."""
+
+    def __init__(self, fi, node, inlined):
+        self.node = node
+        self.key = fi.key
+        self.name = fi.name
+        self.params = fi.params
+        self.module = fi.module
+        self.cls = fi.cls
+        self.inlined = inlined  # keys of the helpers whose bodies were spliced in
+
+    def loc(self, node=None):
+        n = node if node is not None else self.node
+        return "%s:%d" % (self.module.path, getattr(n, "lineno", 0))
+
+
+def inline_helpers(program, fi, depth=2, toward=None):
+    """Copy of fi with every statement-level call `helper(a, b, ...)` of a module-level function of the same module
+    replaced by the helper's body (parameters substituted by the argument expressions).  Only helpers without a
+    `return`, called positionally with side-effect-free arguments (names, attributes, constants) and whose own locals
+    do not clash with the caller's names are inlined - exactly the shape of an "extract function" refactoring.
+    Ordering and dominance facts of the caller then hold across the extracted block.
+    toward: names of functions the caller's facts are about; only helpers that (transitively, inside the module) call
+    one of them are inlined, and those functions themselves never are."""
+    import copy
+
+    mod = fi.module
+    helpers = {g.name: g for g in program.functions.values() if g.module is mod and g.cls is None and g.name != fi.name}
+    caller_names = local_names(fi.node)
+    inlined = set()
+
+    def reaches(g, seen=()):
+        if toward is None:
+            return True
+        for x in walk_function(g.node):
+            if isinstance(x, ast.Call) and isinstance(x.func, ast.Name):
+                if x.func.id in toward:
+                    return True
+                h = helpers.get(x.func.id)
+                if h is not None and h.key not in seen and reaches(h, seen + (g.key,)):
+                    return True
+        return False
+
+    def pure(e):
+        return isinstance(e, (ast.Name, ast.Constant)) or (isinstance(e, ast.Attribute) and pure(e.value))
+
+    def _spliceable(call, g, want_value):
+        """(body statements, returned expression or None) of helper g instantiated for `call`, or None"""
+        if call.keywords or len(call.args) != len(g.params):
+            return None
+        rets = [x for x in walk_function(g.node) if isinstance(x, ast.Return)]
+        body = [x for x in g.node.body if not (isinstance(x, ast.Expr) and isinstance(x.value, ast.Constant))]
+        ret_expr = None
+        if rets:
+            # only a single trailing `return <expr>` is understood
+            if len(rets) != 1 or not body or body[-1] is not rets[0] or rets[0].value is None:
+                return None
+            ret_expr = rets[0].value
+            body = body[:-1]
+        elif want_value:
+            return None
+        # locals of the helper that also exist in the caller are left as they are: the inlined view is the function "as
+        # if the block were written in place", which is what an extracted block was (the caller's own later reads of
+        # such a name are preceded by its own assignment in every case met; facts are about calls and conditions)
+        for pn, a in zip(g.params, call.args):
+            if pure(a):
+                continue
+            # an argument with effects may only stand in for a parameter read exactly once, in the first statement
+            reads = [x for x in ast.walk(g.node) if isinstance(x, ast.Name) and x.id == pn and isinstance(x.ctx, ast.Load)]
+            first = body[0] if body else rets[0] if rets else None
+            if len(reads) != 1 or first is None or not any(x is reads[0] for x in ast.walk(first)):
+                return None
+        amap = dict(zip(g.params, call.args))
+
+        class Sub(ast.NodeTransformer):
+            def visit_Name(self, node):
+                if node.id in amap and isinstance(node.ctx, ast.Load):
+                    return copy.deepcopy(amap[node.id])
+                return node
+
+        new_body = [Sub().visit(copy.deepcopy(x)) for x in body]
+        new_ret = Sub().visit(copy.deepcopy(ret_expr)) if ret_expr is not None else None
+        return new_body, new_ret
+
+    def _helper_of(e):
+        if isinstance(e, ast.Call) and isinstance(e.func, ast.Name):
+            g = helpers.get(e.func.id)
+            if g is not None and (toward is None or (g.name not in toward and reaches(g))):
+                return g
+        return None
+
+    def expand(stmts, d):
+        out = []
+        for st in stmts:
+            for field in ("body", "orelse", "finalbody"):
+                v = getattr(st, field, None)
+                if isinstance(v, list) and v and isinstance(v[0], ast.stmt):
+                    setattr(st, field, expand(v, d))
+            if isinstance(st, ast.Try):
+                for h in st.handlers:
+                    h.body = expand(h.body, d)
+            if d > 0:
+                if isinstance(st, ast.Expr) and _helper_of(st.value) is not None:
+                    g = _helper_of(st.value)
+                    sp = _spliceable(st.value, g, False)
+                    if sp is not None:
+                        out.extend(expand(sp[0], d - 1))
+                        inlined.add(g.key)
+                        continue
+                elif isinstance(st, ast.If) and _helper_of(st.test) is not None:
+                    g = _helper_of(st.test)
+                    sp = _spliceable(st.test, g, True)
+                    if sp is not None and sp[1] is not None:
+                        out.extend(expand(sp[0], d - 1))
+                        st.test = sp[1]
+                        inlined.add(g.key)
+                elif isinstance(st, ast.Assign) and _helper_of(st.value) is not None:
+                    g = _helper_of(st.value)
+                    sp = _spliceable(st.value, g, True)
+                    if sp is not None and sp[1] is not None:
+                        out.extend(expand(sp[0], d - 1))
+                        st.value = sp[1]
+                        inlined.add(g.key)
+            out.append(st)
+        return out
+
+    node = copy.deepcopy(fi.node)
+    node.body = expand(node.body, depth)
+    for n in ast.walk(node):
+        for child in ast.iter_child_nodes(n):
+            child._parent = n
+    ast.fix_missing_locations(node)
+    return InlinedFunction(fi, node, inlined)
